@@ -61,6 +61,14 @@ def cases(rng, tier):
     for c in CORPUS:
         yield Case(c, ("corpus",), "corpus")
     T = songgen.event_types()
+    # positions beyond 16 bits: a loop with a break, a call and a loop point behind 32768 / 65536
+    # events (positions are `int`s in the player; the event fields that cache them are 16 bits wide)
+    pad = lambda k: [(T["VOL"], i % 16, 0, 0) for i in range(k)]
+    tail = [(T["LOOP_START"], 0, 0, 0), (T["NOTE"], 40, 2, 1), (T["LOOP_BREAK"], 0, 0, 0), (T["NOTE"], 41, 1, 1), (T["LOOP_END"], 2, 0, 0),
+            (T["JUMP"], 100, 0, 0), (T["NOTE"], 42, 3, 0)]
+    for k in ((32760, 32766, 32770) if tier == "quick" else (32760, 32765, 32766, 32767, 32768, 32770, 65530, 65536, 65540)):
+        yield Case("valid 0 " + songgen.render({0: pad(k) + tail, 100: [(T["NOTE"], 9, 1, 1)]}), ("long-track",), "long-track")
+        yield Case("valid 0 " + songgen.render({0: pad(k) + [(T["SEGNO"], 0, 0, 0)] + tail, 100: [(T["NOTE"], 9, 1, 1)]}), ("long-track", "segno"), "long-track")
     n = 700 if tier == "quick" else 12000
     made = 0
     tries = 0
